@@ -58,8 +58,17 @@ def seeded_table():
             if mm:
                 key = mm.group(1)
                 break
-        rows.append("| %s | %s | %s | %s | %s | %s %s |" % (sid, m["property"], ", ".join("`%s`" % f.replace("lib/Crypto/", "") for f in files),
-                                                        esc(m.get("needs_to_manifest", ""))[:330], first, cur, ("(`%s`)" % key) if key else ""))
+        other = ""
+        for prop, oc in sorted((m.get("other_checks") or {}).items()):
+            okey = ""
+            for l in oc.get("lines", []):
+                mm = re.search(r"key=(\S+)", l)
+                if mm:
+                    okey = " (`%s`)" % mm.group(1)
+                    break
+            other += "; check %s: %s%s" % (prop, oc["verdict"], okey)
+        rows.append("| %s | %s | %s | %s | %s | %s %s%s |" % (sid, m["property"], ", ".join("`%s`" % f.replace("lib/Crypto/", "") for f in files),
+                                                          esc(m.get("needs_to_manifest", ""))[:330], first, cur, ("(`%s`)" % key) if key else "", other))
     return "\n".join(rows)
 
 
